@@ -213,7 +213,7 @@ inductive Cmd where
   | ksToNv (addr ctrl : Int)
   | ksFromNv (addr ctrl : Int)
   /-- keywrap / encrypt: a LOAD whose data SPSDK's `KeyBlob` derives from these resolved operands -/
-  | loadCrypto (kind : String) (addr : Int) (kbStart kbEnd : Int) (key counter : String) (input : String)
+  | loadCrypto (kind : String) (addr : Int) (kbStart kbEnd : Int) (key counter : String) (input : String) (byteSwap : Bool)
   deriving DecidableEq, Repr, Inhabited
 
 /-- a key blob as `BDParser` records it -/
@@ -371,7 +371,8 @@ def cryptoCmd (kind : String) (kbs : List KeyBlobDef) (d : Dict) (addr : Int) (i
     if !(isHexStr key) || !(isHexStr ctr) then otherErr    -- bytes.fromhex: ValueError
     else do
       checkAddr addr   -- CmdLoad.__init__
-      pure (.loadCrypto kind addr st en key ctr input)
+      -- `_encrypt` looks the swap flag up under "byte_swap", a key the BD grammar never produces: always False
+      pure (.loadCrypto kind addr st en key ctr input false)
 
 /-- `SB21Helper.get_command(name)(dict)`; `kbs` = the configuration's key blobs -/
 def cmdOfDict (env : Env) (kbs : List KeyBlobDef) (name : String) (d : Dict) : R Cmd :=
@@ -560,6 +561,9 @@ def runProgram (env : Env) (blocks : List Block) (sections : List Section) : R (
   let (env', cfg) ← runBlocks env {} blocks
   let secs ← runSections env' sections
   pure (env', { cfg with sections := secs })
+
+/-- `load_from_config` numbers the boot sections by their position (`enumerate(sections)`), not by `section_id` -/
+def sectionUids (cfg : Config) : List Int := (List.range cfg.sections.length).map Int.ofNat
 
 /-- the command loop of `BootImageV21.load_from_config` -/
 def cmdsOfConfig (env : Env) (cfg : Config) : R (List (List Cmd)) :=
